@@ -55,6 +55,7 @@ struct TickitWatch {
 
     struct {
       int signum;
+      unsigned long born; /* value of t->sigwalk_seq when the watch was registered */
     } signal;
 
     struct {
@@ -92,6 +93,10 @@ struct Tickit {
 
   /* the signal watch tickit_evloop_invoke_sigwatches() will look at next */
   TickitWatch *next_sigwatch;
+  /* number of walks over the signal watches begun so far; a watch registered
+   * while a walk is under way was not watching when the signal was delivered
+   * and is not invoked by that walk, wherever in the list the running watch is */
+  unsigned long sigwalk_seq;
 
   unsigned int done_setup    : 1,
                use_altscreen : 1;
@@ -143,11 +148,12 @@ static int on_sigpipe_readable(Tickit *t, TickitEventFlags flags, void *info, vo
 
   /* as in tickit_evloop_invoke_sigwatches(): a callback may cancel any signal
    * watch, its own included, so the cursor lives in t */
+  unsigned long seq = ++t->sigwalk_seq;
   TickitWatch *this;
   for(this = t->signals; this; this = t->next_sigwatch) {
     t->next_sigwatch = this->next;
 
-    if(sigismember(&pending, this->signal.signum))
+    if(sigismember(&pending, this->signal.signum) && this->signal.born < seq)
       (*this->fn)(this->t, TICKIT_EV_FIRE, NULL, this->user);
   }
 
@@ -220,6 +226,7 @@ Tickit *tickit_build(const struct TickitBuilder *builder)
 
   t->sigchldwatch = NULL;
   t->next_sigwatch = NULL;
+  t->sigwalk_seq = 0;
 
   t->done_setup = false;
 
@@ -651,6 +658,7 @@ void *tickit_watch_signal(Tickit *t, int signum, TickitBindFlags flags, TickitCa
   watch->user = user;
 
   watch->signal.signum = signum;
+  watch->signal.born = t->sigwalk_seq;
 
   if(!t->evhooks->signal ||
       !(*t->evhooks->signal)(t->evdata, signum, flags, watch))
@@ -923,11 +931,12 @@ void tickit_evloop_invoke_sigwatches(Tickit *t, int signum)
 {
   /* A callback may cancel any signal watch, its own included; the cursor is
    * kept in t so that tickit_watch_cancel() can move it off a watch it frees */
+  unsigned long seq = ++t->sigwalk_seq;
   TickitWatch *this;
   for(this = t->signals; this; this = t->next_sigwatch) {
     t->next_sigwatch = this->next;
 
-    if(this->signal.signum == signum)
+    if(this->signal.signum == signum && this->signal.born < seq)
       (*this->fn)(this->t, TICKIT_EV_FIRE, NULL, this->user);
   }
 }
